@@ -786,6 +786,8 @@ func engineMultiplex(rng *rand.Rand, n int, tier string, o *Out) {
 		o.Oracle("relay-cancel-cross", "x0", true, "x0", v)
 		return
 	}
+	// mux-drain (engine_c04drain.go): responses completely delivered when the connection fails are still received
+	c04DrainRun(rng, n/3+8, o)
 	ngap := n/6 + 2
 	for c := 0; c < ngap; c++ {
 		chunk := pick(rng, 600, 1000, 4000, 20000)
